@@ -221,9 +221,11 @@ func (e *env) check(v validator, class string, key, content []byte, origin *pair
 		// the reference's strict SSZ parser refused the container, the code did not: decide on what the
 		// code's own decoder extracts (canonical decoding is property C14's business, binding is ours)
 		if fb := e.fallback(key, content); fb.Accept {
-			e.count("dontcare_noncanonical_container_accepted_roots_match", 1)
-			debugf("NONCANONICAL-ACCEPTED class=%s src=%s key=%x content=%s", class, src, key, lib.HexShort(content, 80))
-			return true
+			// the bytes are not the item's encoding, yet decode to the item: "any other byte string under that key is
+			// rejected" is broken (until the history list decoders were repaired this was the zero-first-offset form of
+			// an empty list; it was first treated as don't-care)
+			e.count("noncanonical_container_accepted_roots_match", 1)
+			ref.Reason = "noncanonical-encoding-of-the-genuine-item"
 		} else if fb.Reason != "" {
 			ref = fb
 			extra["reference"] = "lenient-decode:" + fb.Reason
